@@ -179,8 +179,63 @@ def generate(name):
     return counts
 
 
+def generate_sched_arms():
+    """vsched/src/arms_gen.rs: one instantiation per counted (`times:`) arm of fake!, for the T family
+    "arms" (C06: exact accounting under concurrent calls, for every arm).  If the macro cannot be
+    parsed the module is generated empty and the family reports that it was skipped."""
+    sys.path.insert(0, os.path.join(os.path.dirname(os.path.dirname(HERE)), "lib"))
+    out = ["// generated by harness/gen/gen.py from /repo/src/interface/macros.rs; do not edit",
+           "#![allow(unused, clippy::all)]",
+           "use ipp_sched::interface::injector::*;",
+           "use std::panic::{catch_unwind, AssertUnwindSafe};",
+           "pub static ARMS_N: std::sync::atomic::AtomicUsize = std::sync::atomic::AtomicUsize::new(0);", ""]
+    arms = []
+    try:
+        import c08
+        src = open(os.path.join(REPO, "src", "interface", "macros.rs")).read()
+        parsed = c08.parse_arms(src) or []
+        arms = [a for a in parsed if not a.get("unparsed") and "times" in a["opts"]]
+    except Exception as e:  # noqa
+        arms = []
+    installs, calls, names = [], [], []
+    for k, arm in enumerate(arms):
+        q, ptr, ret = c08.fn_type(arm)
+        fnty = "%sfn(u32, %s)%s" % (q, ptr, ret)
+        lines = ["func_type: %sfn(a: u32, out: %s) -> %s" % (q, ptr, "()" if arm["unit"] else "u32")]
+        for o in arm["opts"]:
+            if o == "when":
+                lines.append("when: a < 100")
+            elif o == "assign":
+                lines.append("assign: { *out = a + 1; }")
+            elif o == "returns":
+                lines.append("returns: a + 1")
+            elif o == "times":
+                lines.append("times: crate::arms_gen::ARMS_N.load(std::sync::atomic::Ordering::SeqCst)")
+        body = ("let _ = out; " if arm["abi"] != "Rust" else "let _ = &out; ") + "std::hint::black_box(a); " + ("" if arm["unit"] else "1")
+        out.append("#[inline(never)]\n%sfn arm_target_%d(a: u32, out: %s)%s { %s }" % (q, k, ptr, ret, body))
+        installs.append("        %d => inj.when_called(ipp_sched::func!(arm_target_%d, %s)).will_execute({ let p = ipp_sched::fake!(\n            %s\n        ); if let CallCountVerifier::WithCount { counter, .. } = &p.1 { counter.store(0, simsched::sync::atomic::Ordering::SeqCst); } p })," % (k, k, fnty, ",\n            ".join(lines)))
+        outarg = "&mut out as *mut u32" if arm["abi"] != "Rust" else "&mut out"
+        call = "f(a, %s)" % outarg
+        if arm["unsafe"]:
+            call = "unsafe { %s }" % call
+        calls.append("        %d => { let f: %s = std::hint::black_box(arm_target_%d); let mut out: u32 = 5; catch_unwind(AssertUnwindSafe(|| { %s; })).is_ok() }" % (k, fnty, k, call))
+        names.append(arm["pattern"])
+    out.append("pub const ARM_COUNT: usize = %d;" % len(arms))
+    out.append("pub fn arm_name(k: usize) -> &'static str {\n    match k {\n%s\n        _ => \"?\",\n    }\n}" % "\n".join("        %d => %s," % (k, json_str(n)) for k, n in enumerate(names)))
+    out.append("pub fn install(k: usize, inj: &mut InjectorPP) {\n    match k {\n%s\n        _ => {}\n    }\n}" % "\n".join(installs))
+    out.append("pub fn call(k: usize, a: u32) -> bool {\n    match k {\n%s\n        _ => false,\n    }\n}" % "\n".join(calls))
+    write_if_changed(os.path.join(os.path.dirname(HERE), "vsched", "src", "arms_gen.rs"), "\n".join(out) + "\n")
+
+
+def json_str(s):
+    import json
+    return json.dumps(s)
+
+
 def main():
     names = sys.argv[1:] or list(VARIANTS)
+    if "sched" in names:
+        generate_sched_arms()
     for n in names:
         if n not in VARIANTS:
             die("unknown variant " + n)
